@@ -27,6 +27,32 @@ def cfg_text(c):
             "\nSPECIFICATION Spec\nINVARIANTS Emit Sane\nCHECK_DEADLOCK FALSE\n")
 
 
+def run_driver(ctx, sub, args, timeout=3000):
+    """Run the vops driver; a progress-watchdog trip (exit 3: one evaluation of a tiny input made no
+    progress for 150 s) is confirmed by re-running exactly that evaluation once; only a confirmed hang is
+    reported (the property demands a result), an unconfirmed one is a machinery error."""
+    out = args[args.index("--out") + 1]
+    summary, p = run_harness(ctx, "vops", [sub] + args, timeout=timeout, check=False)
+    if p.returncode == 0:
+        return
+    hung = out + ".hung"
+    if p.returncode == 3 and os.path.exists(hung):
+        rec = json.load(open(hung))
+        write_ndjson(ctx.path("hung.ndjson"), [rec])
+        _, p2 = run_harness(ctx, "vops", [sub, "--in", ctx.path("hung.ndjson"), "--out", ctx.path("hung.res.json"),
+                                          "--replay", "--threads", 1], timeout=600, check=False)
+        if p2.returncode == 3:
+            report_violation(ctx, {"case": rec["case"], "variant": rec["variant"],
+                                   "message": "operator did not terminate: no progress for 150 s on a tiny input, twice (normal: milliseconds)",
+                                   "observed": None, "key": "hang"}, key="hang")
+            write_evidence(ctx, "exploration", {"evaluations": 1, "distinct_nontrivial": 2, "rule": "aborted by a confirmed hang",
+                                                "samples": [rec["case"]]})
+            raise SystemExit(1)
+        raise ToolError("driver watchdog tripped but the hang did not reproduce")
+    sys.stderr.write(p.stderr[-4000:])
+    raise ToolError(f"harness vops {sub} exited {p.returncode}")
+
+
 def report(ctx, res):
     for v in res["violations"]:
         report_violation(ctx, {"case": v["case"], "variant": v["variant"], "variant_name": v["variant_name"],
@@ -39,7 +65,7 @@ def run(ctx):
     if ctx.replay:
         rp = json.load(open(ctx.replay))
         write_ndjson(ctx.path("replay.ndjson"), [{"case": rp["case"], "variant": rp["variant"]}])
-        run_harness(ctx, "vops", ["c05", "--in", ctx.path("replay.ndjson"), "--out", ctx.path("res.json"), "--replay",
+        run_driver(ctx, "c05", ["--in", ctx.path("replay.ndjson"), "--out", ctx.path("res.json"), "--replay",
                                   "--threads", 1])
         res = json.load(open(ctx.path("res.json")))
         report(ctx, res)
@@ -68,8 +94,8 @@ def run(ctx):
             raise ToolError(f"vacuity: generator never produced {k} in {sorted(want - seen[k])}")
     write_ndjson(ctx.path("cases.ndjson"), cases)
     picks = 6 if ctx.quick else 0
-    summary, _ = run_harness(ctx, "vops", ["c05", "--in", ctx.path("cases.ndjson"), "--out", ctx.path("res.json"),
-                                           "--threads", 8 if ctx.quick else 14, "--picks", picks], timeout=3000)
+    run_driver(ctx, "c05", ["--in", ctx.path("cases.ndjson"), "--out", ctx.path("res.json"),
+                                           "--threads", 8 if ctx.quick else 14, "--picks", picks])
     res = json.load(open(ctx.path("res.json")))
     st = res["stats"]
     ops = {k[3:]: v for k, v in st.items() if k.startswith("op:")}
@@ -102,5 +128,5 @@ def run(ctx):
         "co-partitioned operators get inputs partitioned by the first key column by the driver (no RepartitionExec); merge-join inputs are sorted by the driver",
         "binding demonstrated during development: flipping one expected mark bit / dropping one expected row in the case file is reported as a result-bag difference; "
         "the tight-memory lane found two genuine defects of NestedLoopJoinExec's memory-limited fallback (known_findings.json)",
-        "a hang of an operator is reported as a machinery timeout (exit 2), not as a violation",
+        "non-termination is judged only by the progress watchdog: one evaluation of these tiny inputs stuck for 150 s, confirmed by re-running that evaluation alone",
     ])
